@@ -179,6 +179,10 @@ def g3_texts(ctx):
             yield '[{"jsonrpc":"2.0","method":"nop","params":[%s]}]' % nest
             yield '{"jsonrpc":"2.0","method":"echo","params":[%s],"id":1}' % nest
             yield '[{"jsonrpc":"2.0","method":"echo","params":{"a":%s},"id":1},{"jsonrpc":"2.0","method":"echo","id":2}]' % nest
+    # batches in which SEVERAL ids are repeated, of one type and of different types
+    for ids in ([1, 'a', 1, 'a'], [1, '1', 1, '1'], [0, '', 0, ''], [2, 1, 2, 1], ['b', 'a', 'b', 'a'], [1, 'a', 'a', 1, None, None], [1, 1, 1, 'x', 'x', 2 ** 70, 2 ** 70]):
+        yield json.dumps([{'jsonrpc': '2.0', 'method': 'ok', 'id': i} for i in ids])
+        yield json.dumps([{'jsonrpc': '2.0', 'method': 'ok', 'id': i} for i in ids] + [{'jsonrpc': '2.0', 'method': 'ok'}])
     base = '{"jsonrpc":"2.0","method":"ok","id":1}'
     for ws in [' ', '\t', '\n', '\r', '\r\n ', '﻿', '\x0b', '\x0c', '\xa0', ' ', '\x00']:
         yield ws + base
